@@ -462,6 +462,61 @@ theorem C10_selected_used_downstream (xs es : List ℝ) (hz : hasZero es = false
         | some .useWmean => sem xs)) := by
   rw [C10_used_downstream, (C10_selectors xs es hz ss).1, (C10_selectors xs es hz ss).2]
 
+/-- **C10 (used downstream, through intermediate results).** A later calculation built from
+    intermediate results that were made before (`mid = k·a`, `mid2 = mid + c`, now `1·mid2`) reads the
+    value and the uncertainty the measurement has NOW: `k·value + c ± |k|·|uncertainty|` -- the same
+    as the calculation written directly in terms of the measurement. -/
+theorem C10_used_downstream_via_intermediate (k c v e : ℝ) :
+    downstreamVia k c v e = (k * v + c, |k| * |e|) := by
+  unfold downstreamVia Expr.propagate
+  have hs : Expr.sources (Expr.bin Op2.mul (Expr.const (Num.ofNat 1))
+      (Expr.bin Op2.add (Expr.bin Op2.mul (Expr.const k) (Expr.var 0)) (Expr.const c)) : Expr ℝ)
+      = [0] := by
+    simp only [Expr.sources, List.nil_append, List.append_nil]
+    rfl
+  rw [hs]
+  simp only [Expr.eval, Expr.resultSums, Expr.quadTerms, Expr.pairTerms, Expr.diff, Gen.op2, Gen.d2,
+    Gen.quadTerm, Gen.combine, Gen.errOf, List.map_cons, List.map_nil, List.append_nil]
+  simp [Num.sum]
+  rw [Real.sqrt_sq_eq_abs, abs_mul, mul_comm]
+
+/-- **C10 (used downstream, non-linear in an intermediate result).** `mid·mid` with `mid = k·a` made
+    earlier is `(k·value)² ± |2·k·value·k|·|uncertainty|` at the value and uncertainty in use NOW
+    (the central value of the intermediate result that the product rule needs is not a stored one). -/
+theorem C10_used_downstream_sq (k v e : ℝ) :
+    downstreamSq k v e = ((k * v) * (k * v), |2 * (k * v) * k| * |e|) := by
+  unfold downstreamSq Expr.propagate
+  have hs : Expr.sources (Expr.bin Op2.mul (Expr.bin Op2.mul (Expr.const k) (Expr.var 0))
+      (Expr.bin Op2.mul (Expr.const k) (Expr.var 0)) : Expr ℝ) = [0] := by
+    simp only [Expr.sources, List.nil_append, List.append_nil]
+    rfl
+  rw [hs]
+  simp only [Expr.eval, Expr.resultSums, Expr.quadTerms, Expr.pairTerms, Expr.diff, Gen.op2, Gen.d2,
+    Gen.quadTerm, Gen.combine, Gen.errOf, List.map_cons, List.map_nil, List.append_nil]
+  simp [Num.sum]
+  rw [Real.sqrt_sq_eq_abs, show e * (k * (k * v) + k * (k * v)) = 2 * (k * v) * k * e by ring]
+  simp only [abs_mul, abs_two]
+
+/-- the two ways of writing the later calculation agree (whatever was selected in between) -/
+theorem C10_via_intermediate_eq_direct (k c v e : ℝ) :
+    downstreamVia k c v e = downstream k c v e := by
+  rw [C10_used_downstream_via_intermediate, C10_used_downstream]
+
+/-- **C10 (selectors, downstream through intermediate results).** After any selector history a later
+    calculation built from intermediate results made BEFORE the history uses the statistic of the last
+    value-selector and of the last uncertainty-selector. -/
+theorem C10_selected_used_downstream_via_intermediate (xs es : List ℝ) (hz : hasZero es = false)
+    (ss : List Sel) (k c : ℝ) :
+    downstreamVia k c ((Rep.init xs es).run ss).value ((Rep.init xs es).run ss).error =
+      (k * (if Sel.useWmean ∈ ss then wmean xs es else mean xs) + c,
+       |k| * abs (match lastErrSel ss with
+        | none | some .useSem => sem xs
+        | some .useStd => std1 xs
+        | some .usePerr => perr es
+        | some .useWmean => sem xs)) := by
+  rw [C10_via_intermediate_eq_direct]
+  exact C10_selected_used_downstream xs es hz ss k c
+
 /-! ### 12. two repeated measurements in one later calculation
 
 `k1·a + k2·b + c`, `a − b`, `a·b` propagated by the derivative method through the generated tables
